@@ -905,7 +905,7 @@ func (d *Drv) openQuery(op *Op) {
 	qi := queryInst{open: true, spec: spec, seen: map[ecs.Entity]int{}}
 	if op.SF >= 0 {
 		f := d.SF[op.SF].twin
-		if op.Cached {
+		if op.Cached || (!d.M.Filters[op.SF].Registered && d.opIdx%2 == 0) {
 			f = d.SF[op.SF].inst
 		}
 		qi.tq = f.Query(d.rels(op.QRels, d.filterOrder(spec), d.opIdx%3))
